@@ -504,4 +504,118 @@ def pollingResumesB (name : Nat) (mods : List Nat) (within : Nat) (log : Log) : 
 def PollingResumes (name : Nat) (mods : List Nat) (within : Nat) (log : Log) : Prop :=
   pollingResumesB name mods within log = true
 
+/-! ### … honours `wait_before`: every line put on the wire is a send of its own, after a pause -/
+
+/-- caller and data of the send — of a command or of an identification request — at position i -/
+def sendLikeData (log : Log) (i : Nat) : Option (Nat × Bytes) :=
+  match evAt log i with
+  | some (.send c _ _ d) => some (c, d)
+  | some (.isend c _ _ d) => some (c, d)
+  | _ => none
+
+/-- the data is exactly one line: the send terminator occurs at its end and nowhere before (no terminator: no lines) -/
+def oneLineB (eolW data : Bytes) : Bool :=
+  eolW.isEmpty || (match splitFirst eolW data with
+    | some (_, r) => r.isEmpty
+    | none => false)
+
+/-- With `wait_before = w > 0` the device is given a pause before EVERY line: each send carries exactly one line, and
+before it the sending caller has slept at least `w` (a `slp` of the caller, at least `w` long and begun at least `w`
+earlier, with no send of that caller in between). -/
+def waitBeforeHonouredB (w : Nat) (eolW : Bytes) (log : Log) : Bool :=
+  w == 0 || allBelow log.length fun q =>
+    match sendLikeData log q with
+    | some (c, data) =>
+      oneLineB eolW data &&
+      (List.range q).any fun p =>
+        match evAt log p with
+        | some (.slp c' d) =>
+          c' == c && decide (w ≤ d) && decide (timeAt log p + w ≤ timeAt log q) &&
+          allBetween p q (fun m => !(sendLikeAt log m == some c))
+        | _ => false
+    | none => true
+
+def WaitBeforeHonoured (w : Nat) (eolW : Bytes) (log : Log) : Prop := waitBeforeHonouredB w eolW log = true
+
+/-- the pause alone (what the transaction model is about: it sends the requests it is given) -/
+def pacedB (w : Nat) (log : Log) : Bool := waitBeforeHonouredB w [] log
+
+/-- the lines of a command, terminators included (`fuel` ≥ length) -/
+def linesOf (eolW : Bytes) : Nat → Bytes → List Bytes
+  | 0, b => if b.isEmpty then [] else [b]
+  | fuel + 1, b =>
+    if b.isEmpty then [] else
+    match splitFirst eolW b with
+    | some (l, r) => (l ++ eolW) :: linesOf eolW fuel r
+    | none => [b]
+
+/-- a request whose command consists of several lines counts as one request per line when a pause is owed before
+every line; only the last line is answered (a command without reply joined with a query) -/
+def lineReqs (w : Nat) (eolW : Bytes) (r : Req) : List Req :=
+  if w == 0 || eolW.isEmpty then [r] else
+  match (linesOf eolW r.cmd.length r.cmd).reverse with
+  | [] => [r]
+  | last :: before => (before.reverse.map fun l => (⟨l, false, 0, 0⟩ : Req)) ++ [{ r with cmd := last }]
+
+/-- the log as the clauses about requests and replies read it: the requests of every call line by line -/
+def expandCalls (w : Nat) (eolW : Bytes) (log : Log) : Log :=
+  log.map fun e =>
+    match e.ev with
+    | .call c k reqs => { e with ev := .call c k (reqs.flatMap (lineReqs w eolW)) }
+    | _ => e
+
+/-- position q holds a send of a `communicate` call (one request) that is not the first send of that call: a further
+line of a command of several lines -/
+def laterLineAt (log : Log) (q : Nat) : Option Nat :=
+  match evAt log q with
+  | some (.send c _ _ _) =>
+    (match (List.range q).reverse.find? (fun m => match evAt log m with
+        | some (.call c' _ _) => c' == c
+        | _ => false) with
+     | some a =>
+       (match evAt log a with
+        | some (.call _ .comm _) => if anyBetween a q (fun m => sendAt log m == some c) then some c else none
+        | _ => none)
+     | none => none)
+  | _ => none
+
+/-- the log as the clauses about REPLIES read it: a command of several lines is one command, sent from its first line
+on — the receive buffer is flushed once, before the first line, and what arrives from then on answers the command.
+The sends of its further lines are taken out (replaced by an event of the same caller that these clauses ignore), so that
+the window of the request begins at the send of its first line. -/
+def joinLines (log : Log) : Log :=
+  (List.range log.length).filterMap fun q =>
+    (log[q]?).map fun e =>
+      match laterLineAt log q with
+      | some c => { e with ev := .wake c }
+      | none => e
+
+/-- nothing of a command is lost, doubled or reordered on the way to the wire: the sends of a call that returns
+its replies, put together, are its requests put together -/
+def commandIntactB (log : Log) : Bool :=
+  allBelow log.length fun a =>
+    match evAt log a with
+    | some (.call c _ reqs) =>
+      let b := spanEnd log c a
+      !(isOkRet (evAt log b)) ||
+      ((sendsIn log c a b).flatMap fun q => match sendLikeData log q with
+        | some (_, d) => d
+        | none => []) == reqs.flatMap (·.cmd)
+    | _ => true
+
+/-! ### self-healing goes back to the SAME device -/
+
+def isConnect : Option Ev → Bool
+  | some (.connect _ _ _) => true
+  | _ => false
+
+def connectCount (log : Log) : Nat := ((List.range log.length).filter fun i => isConnect (evAt log i)).length
+
+/-- `targets` = the addresses (host, port) the connect attempts of the log were made to, in order: every reconnect
+attempt goes to the address of the first connect -/
+def reconnectSameTargetB (targets : List (Nat × Nat)) (log : Log) : Bool :=
+  (connectCount log == targets.length) && targets.all fun a => some a == targets.head?
+
+def ReconnectSameTarget (targets : List (Nat × Nat)) (log : Log) : Prop := reconnectSameTargetB targets log = true
+
 end Frappy.Spec.C16
